@@ -20,11 +20,11 @@ def _posts(s):
     return p if p is not None and sum(len(t) for _, t in p) != len(s.constraints) else None
 
 
-def _one(rng, incremental=False):
+def _one(rng, incremental=False, corner=None):
     """Build a session through the real DSL, solve with the real z3 backend, compare with brute force.
     Returns None or (kind, detail)."""
     from cspuz.expr import BoolVar
-    s, bools, ints = dslgen.random_session(rng)
+    s, bools, ints = dslgen.corner_session(corner) if corner is not None else dslgen.random_session(rng)
     steps = 1
     if incremental:
         steps = rng.randint(2, 3)
@@ -112,7 +112,7 @@ def _correspond(ctx):
     lines, meta = [], []
     for k in range(nsess):
         try:
-            s, bools, ints = dslgen.random_session(ctx.rng)
+            s, bools, ints = dslgen.corner_session(k) if k < dslgen.N_CORNERS else dslgen.random_session(ctx.rng)
         except Exception as e:
             ctx.count("gen-error:" + core.err_name(e))
             continue
@@ -303,7 +303,7 @@ def search(ctx, why):
     found = {}
     for k in range(ctx.n(1500, 6000)):
         try:
-            bad = _one(ctx.rng, incremental=(k % 3 == 0))
+            bad = _one(ctx.rng, incremental=(k % 3 == 0), corner=(k if k < dslgen.N_CORNERS else None))
         except Exception as e:
             bad = ("harness-exception", {"exception": repr(e)})
         ctx.count("search:sessions")
